@@ -17,7 +17,8 @@ RULE = ("kind deriv: zoo crystal x supercell x FC class (symmetric model | arbit
         "difference of the mode frequency for modes separated by > 1e-3 nu_max, generic and high-symmetry q; "
         "kind grun: three volumes with FC scaled as (V/V0)^(-2g) -> every mode above cutoff has the closed-form value; volume-dependent pair model -> "
         "symmetry-reduced and full mesh give the same weighted sums of per-q symmetric functions of gamma; "
-        "non-trivial = non-zero derivative / at least 3 modes above cutoff; distinct = full parameter tuple")
+        "non-trivial = non-zero derivative / at least 3 modes above cutoff; distinct = full parameter tuple; "
+        "additions of rounds 6-8: q outside the first zone on the usual invariant sets; isotropic-supercell cases keep phonopy's symmetrisation on; force-constant memory layouts; Grueneisen closed form through mesh and band routes x default/explicit strain increment; stale-velocity probe on modes clear of the degeneracy tolerance")
 ASSUMPTIONS = [
     "q_cart = L^-1 q_red (no 2 pi); group velocity in THz.Angstrom",
     "finite-difference oracle: error at h/2 must be < 0.35 x error at h, or below 1e-7 of the scale",
